@@ -18,7 +18,7 @@
    BatchStart events, which is what the harness compares with the real code. *)
 From Coq Require Import List Arith NArith Bool.
 Import ListNotations.
-Require Import Aiuti.Batcher Aiuti.BatcherLimits Aiuti.BatcherTime.
+Require Import Aiuti.Case_Batcher Aiuti.Case_Batcher_Sound Aiuti.Batcher Aiuti.BatcherLimits Aiuti.BatcherTime.
 
 (* Every batch handed to the batch function is non-empty and no larger than
    lim = the largest max_batch_size that was in force when one of its items
@@ -146,6 +146,17 @@ Theorem clock_exact :
 Proof. exact clock_exact_lemma. Qed.
 Print Assumptions clock_exact.
 
+(* Monitor soundness, PARTIAL.  ok_C10 (Case_Batcher.v) judges the observed trace
+   independently of the model.  Proved: acceptance implies every observed batch is
+   non-empty.  NOT proved as theorems: the FIFO / size-limit / deadline / concurrency
+   conjuncts of check_start are decided against the monitor's own specification queue
+   (m_expect) and live list; they are tied to the theorems above through [agree]. *)
+Theorem monitor_sound_partial :
+  forall c evs observed w, ok_C10 (BCase c evs observed w) = true ->
+  forall os b items t, In os observed -> In (BatchStart b items t) os -> 1 <= length items.
+Proof. exact ok_C10_sound. Qed.
+Print Assumptions monitor_sound_partial.
+
 (* ---- non-vacuity --------------------------------------------------------------- *)
 
 Definition ex_cfg := mkcfg 2 1 10%N 0%N.      (* max_batch_size 2, one slot, batch_timeout 10 *)
@@ -185,3 +196,9 @@ Example lowered_limit_example :
   fst (run (mkcfg 3 1 10%N 0%N) [Call 1 None; Call 2 None; SetMax 1; Advance 10]) =
   [[]; []; []; [BatchStart 0 [(1, 1); (2, 2)] 10%N]].
 Proof. vm_compute. reflexivity. Qed.
+
+(* the monitor accepts the model's own trace of the example and rejects an empty batch *)
+Example ex_monitor :
+  ok_C10 (BCase ex_cfg ex_evs (map canon (fst (run ex_cfg ex_evs))) (waiting_callers (snd (run ex_cfg ex_evs)))) = true /\
+  ok_C10 (BCase ex_cfg [Call 1 None; Advance 10] [[]; [BatchStart 0 [] 10%N]] [0]) = false.
+Proof. vm_compute. split; reflexivity. Qed.
